@@ -382,7 +382,10 @@ class CookieJar(AbstractCookieJar):
 
             if max_age := cookie["max-age"]:
                 try:
-                    delta_seconds = int(max_age)
+                    # Clamp so adding it to a float timestamp cannot overflow
+                    delta_seconds = max(
+                        -self.MAX_TIME, min(int(max_age), self.MAX_TIME)
+                    )
                 except ValueError:
                     # An invalid Max-Age is ignored, Expires still applies
                     max_age = cookie["max-age"] = ""
